@@ -366,4 +366,461 @@ theorem init_queue (P : SSParams) (infs : List Node) :
       split <;> simp
   rw [this]; simp
 
+theorem mem_reQ {tmax : Rat} {src : Option Node} {v : Node} {tt : List Rat} {x : SItem} (h : x ∈ reQ tmax src v tt) :
+    ∃ u, src = some u ∧ x ∈ chainOf tmax u v tt := by
+  cases src with
+  | none => simp [reQ] at h
+  | some u => exact ⟨u, rfl, h⟩
+
+theorem mem_newItems {P : SSParams} {s : SSState} {t : Rat} {v : Node} {x : SItem} (h : x ∈ newItems P s t v) :
+    (x = ⟨t + P.dur v (s.count v), SEv.recov v⟩ ∧ t + P.dur v (s.count v) < P.tmax) ∨
+    ∃ w ∈ P.nbrs v, x ∈ chainOf P.tmax v w
+      (liveTimes (fset s.inf v true) (fset s.recTime v (t + P.dur v (s.count v))) w
+        ((P.delays v w (s.count v)).map fun d => t + d)) := by
+  unfold newItems at h
+  rcases List.mem_append.1 h with h | h
+  · left
+    split at h
+    · simp at h; exact ⟨h, ‹_›⟩
+    · simp at h
+  · right
+    obtain ⟨w, hw, hx⟩ := List.mem_flatMap.1 h
+    exact ⟨w, hw, hx⟩
+
+/-! ### invariant A: nothing at or after `tmax` -/
+
+structure InvA (P : SSParams) (s : SSState) : Prop where
+  q_lt : ∀ x ∈ s.queue, x.time < P.tmax
+  log_lt : ∀ c ∈ s.log, c.1 < P.tmax
+
+theorem chainOf_lt {tmax : Rat} {src tgt : Node} {tt : List Rat} {x : SItem} (h : x ∈ chainOf tmax src tgt tt) :
+    x.time < tmax := by
+  obtain ⟨t0, fol, _, h2, rfl⟩ := mem_chainOf h; exact h2
+
+theorem newItems_lt {P : SSParams} {s : SSState} {t : Rat} {v : Node} {x : SItem} (h : x ∈ newItems P s t v) :
+    x.time < P.tmax := by
+  rcases mem_newItems h with ⟨rfl, h'⟩ | ⟨w, _, h'⟩
+  · exact h'
+  · exact chainOf_lt h'
+
+theorem reQ_lt {tmax : Rat} {src : Option Node} {v : Node} {tt : List Rat} {x : SItem} (h : x ∈ reQ tmax src v tt) :
+    x.time < tmax := by
+  obtain ⟨u, _, h⟩ := mem_reQ h; exact chainOf_lt h
+
+theorem InvA_step {P : SSParams} {s s' : SSState} (hI : InvA P s) (h : step P s = some s') : InvA P s' := by
+  obtain ⟨x, l1, l2, hq, _, _, hc⟩ := step_cases h
+  have hx : x.time < P.tmax := hI.q_lt x (by simp [hq])
+  have hold : ∀ y ∈ l1 ++ l2, y.time < P.tmax := by
+    intro y hy; apply hI.q_lt y; rw [hq]
+    rcases List.mem_append.1 hy with hy | hy <;> simp [hy]
+  rcases hc with ⟨u, _, rfl⟩ | ⟨src, v, fut, _, _, rfl⟩ | ⟨src, v, fut, _, _, rfl⟩
+  · refine ⟨hold, ?_⟩
+    intro c hc
+    rcases List.mem_cons.1 hc with rfl | hc
+    · exact hx
+    · exact hI.log_lt c hc
+  · refine ⟨?_, hI.log_lt⟩
+    intro y hy
+    rcases List.mem_append.1 hy with hy | hy
+    · exact hold y hy
+    · exact reQ_lt hy
+  · refine ⟨?_, ?_⟩
+    · intro y hy
+      rcases List.mem_append.1 hy with hy | hy
+      · rcases List.mem_append.1 hy with hy | hy
+        · exact hold y hy
+        · exact newItems_lt hy
+      · exact reQ_lt hy
+    · intro c hc
+      rcases List.mem_cons.1 hc with rfl | hc
+      · exact hx
+      · exact hI.log_lt c hc
+
+theorem InvA_init (P : SSParams) (infs : List Node) : InvA P (init P infs) := by
+  refine ⟨?_, by simp [init]⟩
+  rw [init_queue]
+  intro x hx
+  split at hx
+  · simp at hx; obtain ⟨u, _, rfl⟩ := hx; assumption
+  · simp at hx
+
+theorem InvA_run (P : SSParams) (infs : List Node) (fuel : Nat) : InvA P (run P infs fuel) :=
+  loop_inv (InvA P) (fun _ _ => InvA_step) fuel _ (InvA_init P infs)
+
+/-! ### invariant B: the per-node log alternates; recovery times -/
+
+/-- the status changes of node `v`, oldest first -/
+def nlog (log : List Change) (v : Node) : List Change := log.reverse.filter (fun c => c.2.1 == v)
+
+theorem nlog_cons_self (t : Rat) (v : Node) (b : Bool) (log : List Change) :
+    nlog ((t, v, b) :: log) v = nlog log v ++ [(t, v, b)] := by
+  simp [nlog, List.filter_append]
+
+theorem nlog_cons_ne (t : Rat) {u v : Node} (b : Bool) (log : List Change) (h : u ≠ v) :
+    nlog ((t, u, b) :: log) v = nlog log v := by
+  simp [nlog, List.filter_append, h]
+
+theorem getElem?_snoc_cases {α : Type} {l : List α} {a c : α} {i : Nat} (h : (l ++ [a])[i]? = some c) :
+    (i < l.length ∧ l[i]? = some c) ∨ (i = l.length ∧ c = a) := by
+  rw [List.getElem?_append] at h
+  split at h
+  · left; exact ⟨‹_›, h⟩
+  · right
+    rename_i hi
+    have : i - l.length = 0 := by
+      by_contra hne
+      have : ([a] : List α)[i - l.length]? = none := by
+        apply List.getElem?_eq_none; simp; omega
+      rw [this] at h; simp at h
+    rw [this] at h
+    simp at h
+    exact ⟨by omega, h.symm⟩
+
+structure InvB (P : SSParams) (s : SSState) (v : Node) : Prop where
+  alt : ∀ i c, (nlog s.log v)[i]? = some c → c.2.2 = (i % 2 == 0)
+  infl : s.inf v = ((nlog s.log v).length % 2 == 1)
+  cnt : s.count v = ((nlog s.log v).length + 1) / 2
+  rc : s.queue.countP (fun x => x.ev == SEv.recov v) ≤ if s.inf v then 1 else 0
+  rt : ∀ x ∈ s.queue, x.ev = SEv.recov v → x.time = s.recTime v
+  rT : ∀ i c, (nlog s.log v).length = 2 * i + 1 → (nlog s.log v)[2 * i]? = some c → s.recTime v = c.1 + P.dur v i
+  pair : ∀ i ci cr, (nlog s.log v)[2 * i]? = some ci → (nlog s.log v)[2 * i + 1]? = some cr →
+    cr.1 = ci.1 + P.dur v i
+
+theorem InvB_frame {P : SSParams} {s s' : SSState} {v : Node} (hI : InvB P s v)
+    (h1 : s'.inf v = s.inf v) (h2 : s'.recTime v = s.recTime v) (h3 : s'.count v = s.count v)
+    (h4 : nlog s'.log v = nlog s.log v)
+    (h5 : s'.queue.countP (fun x => x.ev == SEv.recov v) ≤ s.queue.countP (fun x => x.ev == SEv.recov v))
+    (h6 : ∀ x ∈ s'.queue, x.ev = SEv.recov v → x ∈ s.queue) : InvB P s' v := by
+  refine ⟨?_, ?_, ?_, ?_, ?_, ?_, ?_⟩
+  · rw [h4]; exact hI.alt
+  · rw [h4, h1]; exact hI.infl
+  · rw [h4, h3]; exact hI.cnt
+  · rw [h1]; exact le_trans h5 hI.rc
+  · intro x hx he; rw [h2]; exact hI.rt x (h6 x hx he) he
+  · rw [h4, h2]; exact hI.rT
+  · rw [h4]; exact hI.pair
+
+def noRecov (v : Node) (l : List SItem) : Prop := ∀ x ∈ l, x.ev ≠ SEv.recov v
+
+theorem noRecov_countP {v : Node} {l : List SItem} (h : noRecov v l) :
+    l.countP (fun x => x.ev == SEv.recov v) = 0 := by
+  rw [List.countP_eq_zero]
+  intro x hx; simpa using h x hx
+
+theorem noRecov_chainOf (v : Node) (tmax : Rat) (src tgt : Node) (tt : List Rat) :
+    noRecov v (chainOf tmax src tgt tt) := by
+  intro x hx
+  obtain ⟨t0, fol, _, _, rfl⟩ := mem_chainOf hx
+  simp
+
+theorem noRecov_reQ (v : Node) (tmax : Rat) (src : Option Node) (tgt : Node) (tt : List Rat) :
+    noRecov v (reQ tmax src tgt tt) := by
+  intro x hx
+  obtain ⟨u, _, hx⟩ := mem_reQ hx
+  exact noRecov_chainOf v _ _ _ _ x hx
+
+theorem noRecov_newItems {v w : Node} (P : SSParams) (s : SSState) (t : Rat) (h : w ≠ v) :
+    noRecov v (newItems P s t w) := by
+  intro x hx
+  rcases mem_newItems hx with ⟨rfl, _⟩ | ⟨z, _, hx⟩
+  · simp [h]
+  · exact noRecov_chainOf v _ _ _ _ x hx
+
+theorem countP_mid_le {α : Type} (p : α → Bool) (l1 l2 : List α) (x : α) :
+    (l1 ++ l2).countP p ≤ (l1 ++ x :: l2).countP p := by
+  simp [List.countP_append, List.countP_cons]
+
+theorem mem_mid {α : Type} {l1 l2 : List α} {x y : α} (h : y ∈ l1 ++ l2) : y ∈ l1 ++ x :: l2 := by
+  rcases List.mem_append.1 h with h | h <;> simp [h]
+
+theorem InvB_step {P : SSParams} {s s' : SSState} (hI : ∀ v, InvB P s v) (h : step P s = some s') :
+    ∀ v, InvB P s' v := by
+  obtain ⟨x, l1, l2, hq, _, _, hc⟩ := step_cases h
+  intro v
+  have hIv := hI v
+  rcases hc with ⟨u, hev, rfl⟩ | ⟨src, w, fut, hev, hinf, rfl⟩ | ⟨src, w, fut, hev, hinf, rfl⟩
+  · -- recovery of u
+    by_cases huv : u = v
+    · subst huv
+      have hxq : x ∈ s.queue := by simp [hq]
+      have hcnt : 1 ≤ s.queue.countP (fun y => y.ev == SEv.recov u) := by
+        apply List.countP_pos_iff.2; exact ⟨x, hxq, by simp [hev]⟩
+      have hinf : s.inf u = true := by
+        have := hIv.rc
+        split at this
+        · assumption
+        · omega
+      have hodd : (nlog s.log u).length % 2 = 1 := by
+        have := hIv.infl; rw [hinf] at this; simpa using this.symm
+      have hxt : x.time = s.recTime u := hIv.rt x hxq hev
+      refine ⟨?_, ?_, ?_, ?_, ?_, ?_, ?_⟩
+      · intro i c hic
+        simp only [nlog_cons_self] at hic
+        rcases getElem?_snoc_cases hic with ⟨_, h1⟩ | ⟨rfl, rfl⟩
+        · exact hIv.alt i c h1
+        · simp; omega
+      · simp only [nlog_cons_self, fset]; simp; omega
+      · simp only [nlog_cons_self]; rw [hIv.cnt]; simp; omega
+      · simp only [fset]; simp
+        have := hIv.rc
+        rw [hinf, hq, List.countP_append, List.countP_cons] at this
+        simp only [hev, beq_self_eq_true, if_true] at this
+        constructor
+        · have : l1.countP (fun x => x.ev == SEv.recov u) = 0 := by omega
+          rw [List.countP_eq_zero] at this; simpa using this
+        · have : l2.countP (fun x => x.ev == SEv.recov u) = 0 := by omega
+          rw [List.countP_eq_zero] at this; simpa using this
+      · intro y hy he
+        exact hIv.rt y (by rw [hq]; exact mem_mid hy) he
+      · intro i c hlen
+        simp only [nlog_cons_self] at hlen; simp at hlen; omega
+      · intro i ci cr h1 h2
+        simp only [nlog_cons_self] at h1 h2
+        rcases getElem?_snoc_cases h2 with ⟨h2l, h2⟩ | ⟨h2l, rfl⟩
+        · rcases getElem?_snoc_cases h1 with ⟨_, h1⟩ | ⟨h1l, _⟩
+          · exact hIv.pair i ci cr h1 h2
+          · omega
+        · rcases getElem?_snoc_cases h1 with ⟨_, h1⟩ | ⟨h1l, _⟩
+          · show x.time = _
+            rw [hxt]; exact hIv.rT i ci h2l.symm h1
+          · omega
+    · apply InvB_frame hIv
+      · simp [fset, Ne.symm huv]
+      · rfl
+      · rfl
+      · exact nlog_cons_ne _ _ _ huv
+      · rw [hq]; exact countP_mid_le _ _ _ _
+      · intro y hy _; rw [hq]; exact mem_mid hy
+  · -- attempt on an infectious node
+    apply InvB_frame hIv
+    · rfl
+    · rfl
+    · rfl
+    · rfl
+    · rw [hq]
+      simp only [List.countP_append (l₁ := l1 ++ l2), noRecov_countP (noRecov_reQ v _ _ _ _)]
+      exact countP_mid_le _ _ _ _
+    · intro y hy he
+      rcases List.mem_append.1 hy with hy | hy
+      · rw [hq]; exact mem_mid hy
+      · exact absurd he (noRecov_reQ v _ _ _ _ y hy)
+  · -- infection of w
+    by_cases hwv : w = v
+    · subst hwv
+      have heven : (nlog s.log w).length % 2 = 0 := by
+        have := hIv.infl; rw [hinf] at this
+        have h2 : ¬ ((nlog s.log w).length % 2 = 1) := by simpa using this.symm
+        omega
+      have hno : s.queue.countP (fun y => y.ev == SEv.recov w) = 0 := by
+        have := hIv.rc; rw [hinf] at this; simpa using this
+      have hno' : ∀ y ∈ l1 ++ l2, y.ev ≠ SEv.recov w := by
+        intro y hy
+        rw [List.countP_eq_zero] at hno
+        simpa using hno y (by rw [hq]; exact mem_mid hy)
+      refine ⟨?_, ?_, ?_, ?_, ?_, ?_, ?_⟩
+      · intro i c hic
+        simp only [nlog_cons_self] at hic
+        rcases getElem?_snoc_cases hic with ⟨_, h1⟩ | ⟨rfl, rfl⟩
+        · exact hIv.alt i c h1
+        · simp; omega
+      · simp only [nlog_cons_self, fset]; simp; omega
+      · simp only [nlog_cons_self, fset]; rw [hIv.cnt]; simp; omega
+      · simp only [fset]; simp only [if_true]
+        rw [List.countP_append, noRecov_countP (noRecov_reQ w _ _ _ _), List.countP_append]
+        have h0 : (l1 ++ l2).countP (fun y => y.ev == SEv.recov w) = 0 := by
+          rw [List.countP_eq_zero]; intro y hy; simpa using hno' y hy
+        rw [h0]
+        unfold newItems
+        rw [List.countP_append]
+        have h1 : ((P.nbrs w).flatMap (fun z => chainOf P.tmax w z
+            (liveTimes (fset s.inf w true) (fset s.recTime w (x.time + P.dur w (s.count w))) z
+              ((P.delays w z (s.count w)).map fun d => x.time + d)))).countP
+              (fun y => y.ev == SEv.recov w) = 0 := by
+          apply noRecov_countP
+          intro y hy
+          obtain ⟨z, _, hy⟩ := List.mem_flatMap.1 hy
+          exact noRecov_chainOf w _ _ _ _ y hy
+        rw [h1]
+        split <;> simp
+      · intro y hy he
+        simp only [fset]; simp
+        rcases List.mem_append.1 hy with hy | hy
+        · rcases List.mem_append.1 hy with hy | hy
+          · exact absurd he (hno' y hy)
+          · rcases mem_newItems hy with ⟨rfl, _⟩ | ⟨z, _, hy⟩
+            · rfl
+            · exact absurd he (noRecov_chainOf w _ _ _ _ y hy)
+        · exact absurd he (noRecov_reQ w _ _ _ _ y hy)
+      · intro i c hlen hic
+        simp only [nlog_cons_self] at hlen hic
+        simp at hlen
+        have hi2 : 2 * i = (nlog s.log w).length := by omega
+        rcases getElem?_snoc_cases hic with ⟨h1, _⟩ | ⟨_, rfl⟩
+        · omega
+        · simp only [fset]; simp
+          rw [hIv.cnt]
+          have : ((nlog s.log w).length + 1) / 2 = i := by omega
+          rw [this]
+      · intro i ci cr h1 h2
+        simp only [nlog_cons_self] at h1 h2
+        rcases getElem?_snoc_cases h2 with ⟨h2l, h2⟩ | ⟨h2l, rfl⟩
+        · rcases getElem?_snoc_cases h1 with ⟨_, h1⟩ | ⟨h1l, _⟩
+          · exact hIv.pair i ci cr h1 h2
+          · omega
+        · omega
+    · apply InvB_frame hIv
+      · simp [fset, Ne.symm hwv]
+      · simp [fset, Ne.symm hwv]
+      · simp [fset, Ne.symm hwv]
+      · exact nlog_cons_ne _ _ _ hwv
+      · rw [hq]
+        simp only [List.countP_append (l₁ := l1 ++ l2 ++ newItems P s x.time w),
+          List.countP_append (l₁ := l1 ++ l2) (l₂ := newItems P s x.time w),
+          noRecov_countP (noRecov_reQ v _ _ _ _), noRecov_countP (noRecov_newItems P s x.time hwv)]
+        exact countP_mid_le _ _ _ _
+      · intro y hy he
+        rcases List.mem_append.1 hy with hy | hy
+        · rcases List.mem_append.1 hy with hy | hy
+          · rw [hq]; exact mem_mid hy
+          · exact absurd he (noRecov_newItems P s x.time hwv y hy)
+        · exact absurd he (noRecov_reQ v _ _ _ _ y hy)
+
+theorem InvB_init (P : SSParams) (infs : List Node) (v : Node) : InvB P (init P infs) v := by
+  have hl : nlog (init P infs).log v = [] := by simp [init, nlog]
+  have hnr : noRecov v (init P infs).queue := by
+    rw [init_queue]
+    intro x hx; split at hx
+    · simp at hx; obtain ⟨u, _, rfl⟩ := hx; simp
+    · simp at hx
+  refine ⟨?_, ?_, ?_, ?_, ?_, ?_, ?_⟩
+  · rw [hl]; simp
+  · rw [hl]; simp [init]
+  · rw [hl]; simp [init]
+  · rw [noRecov_countP hnr]; simp
+  · intro x hx he; exact absurd he (hnr x hx)
+  · rw [hl]; simp
+  · rw [hl]; simp
+
+theorem InvB_run (P : SSParams) (infs : List Node) (fuel : Nat) : ∀ v, InvB P (run P infs fuel) v :=
+  loop_inv (fun s => ∀ v, InvB P s v) (fun _ _ => InvB_step) fuel _ (InvB_init P infs)
+
+/-! ### invariant C: every transmission is a listed attempt -/
+
+def TransOK (P : SSParams) (infs : List Node) (tr : List (Rat × Option Node × Node)) (e : Rat × Option Node × Node) :
+    Prop :=
+  match e.2.1 with
+  | none => e.2.2 ∈ infs ∧ e.1 = P.tmin
+  | some u => e.2.2 ∈ P.nbrs u ∧ ∃ eu ∈ tr, eu.2.2 = u ∧ ∃ k d, d ∈ P.delays u e.2.2 k ∧ eu.1 + d = e.1
+
+def ChainOK (P : SSParams) (infs : List Node) (tr : List (Rat × Option Node × Node)) (t : Rat) (src : Option Node)
+    (v : Node) (fut : List Rat) : Prop :=
+  match src with
+  | none => v ∈ infs ∧ t = P.tmin
+  | some u => v ∈ P.nbrs u ∧ ∃ eu ∈ tr, eu.2.2 = u ∧ ∃ k, ∀ t' ∈ t :: fut, ∃ d ∈ P.delays u v k, eu.1 + d = t'
+
+theorem TransOK.mono {P : SSParams} {infs : List Node} {tr tr' : List (Rat × Option Node × Node)}
+    {e : Rat × Option Node × Node} (h : TransOK P infs tr e) (hs : ∀ x ∈ tr, x ∈ tr') : TransOK P infs tr' e := by
+  unfold TransOK at h ⊢
+  split
+  · rename_i h0; simp only [h0] at h; exact h
+  · rename_i u h0; simp only [h0] at h
+    obtain ⟨h1, eu, h2, h3⟩ := h
+    exact ⟨h1, eu, hs eu h2, h3⟩
+
+theorem ChainOK.mono {P : SSParams} {infs : List Node} {tr tr' : List (Rat × Option Node × Node)}
+    {t : Rat} {src : Option Node} {v : Node} {fut : List Rat}
+    (h : ChainOK P infs tr t src v fut) (hs : ∀ x ∈ tr, x ∈ tr') : ChainOK P infs tr' t src v fut := by
+  cases src with
+  | none => exact h
+  | some u =>
+    obtain ⟨h1, eu, h2, h3⟩ := h
+    exact ⟨h1, eu, hs eu h2, h3⟩
+
+theorem liveTimes_subset {inf : Node → Bool} {recTime : Node → Rat} {v : Node} {tt : List Rat} {t : Rat}
+    (h : t ∈ liveTimes inf recTime v tt) : t ∈ tt := by
+  unfold liveTimes at h
+  split at h
+  · exact (List.mem_filter.1 h).1
+  · exact h
+
+structure InvC (P : SSParams) (infs : List Node) (s : SSState) : Prop where
+  tr : ∀ e ∈ s.trans, TransOK P infs s.trans e
+  qc : ∀ x ∈ s.queue, ∀ src v fut, x.ev = SEv.trans src v fut → ChainOK P infs s.trans x.time src v fut
+
+/-- the re-queued rest of a chain is still a listed chain -/
+theorem reQ_ChainOK {P : SSParams} {infs : List Node} {tr : List (Rat × Option Node × Node)}
+    {t : Rat} {src : Option Node} {v : Node} {fut : List Rat} (h : ChainOK P infs tr t src v fut)
+    (p : Rat → Bool) {y : SItem} (hy : y ∈ reQ P.tmax src v (fut.filter p)) :
+    ∀ src' v' fut', y.ev = SEv.trans src' v' fut' → ChainOK P infs tr y.time src' v' fut' := by
+  obtain ⟨u, rfl, hy⟩ := mem_reQ hy
+  obtain ⟨t0, fol, h1, _, rfl⟩ := mem_chainOf hy
+  intro src' v' fut' he
+  simp at he
+  obtain ⟨rfl, rfl, rfl⟩ := he
+  obtain ⟨h2, eu, h3, h4, k, h5⟩ := h
+  refine ⟨h2, eu, h3, h4, k, ?_⟩
+  intro t' ht'
+  apply h5
+  have : t' ∈ fut.filter p := by rw [h1]; exact ht'
+  exact List.mem_cons_of_mem _ (List.mem_filter.1 this).1
+
+theorem InvC_step {P : SSParams} {infs : List Node} {s s' : SSState} (hI : InvC P infs s) (h : step P s = some s') :
+    InvC P infs s' := by
+  obtain ⟨x, l1, l2, hq, _, _, hc⟩ := step_cases h
+  have hxq : x ∈ s.queue := by simp [hq]
+  have hold : ∀ y ∈ l1 ++ l2, y ∈ s.queue := by intro y hy; rw [hq]; exact mem_mid hy
+  rcases hc with ⟨u, hev, rfl⟩ | ⟨src, w, fut, hev, hinf, rfl⟩ | ⟨src, w, fut, hev, hinf, rfl⟩
+  · exact ⟨hI.tr, fun y hy => hI.qc y (hold y hy)⟩
+  · refine ⟨hI.tr, ?_⟩
+    intro y hy
+    rcases List.mem_append.1 hy with hy | hy
+    · exact hI.qc y (hold y hy)
+    · exact reQ_ChainOK (hI.qc x hxq src w fut hev) _ hy
+  · have hsub : ∀ e ∈ s.trans, e ∈ (x.time, src, w) :: s.trans := fun e he => List.mem_cons_of_mem _ he
+    have hx := hI.qc x hxq src w fut hev
+    refine ⟨?_, ?_⟩
+    · intro e he
+      rcases List.mem_cons.1 he with rfl | he
+      · unfold TransOK
+        cases src with
+        | none => exact hx
+        | some u =>
+          obtain ⟨h1, eu, h2, h3, k, h4⟩ := hx
+          obtain ⟨d, hd, hd'⟩ := h4 x.time (by simp)
+          exact ⟨h1, eu, hsub eu h2, h3, k, d, hd, hd'⟩
+      · exact (hI.tr e he).mono hsub
+    · intro y hy
+      rcases List.mem_append.1 hy with hy | hy
+      · rcases List.mem_append.1 hy with hy | hy
+        · intro src' v' fut' he
+          exact (hI.qc y (hold y hy) src' v' fut' he).mono hsub
+        · rcases mem_newItems hy with ⟨rfl, _⟩ | ⟨z, hz, hy⟩
+          · intro src' v' fut' he; simp at he
+          · obtain ⟨t0, fol, h1, _, rfl⟩ := mem_chainOf hy
+            intro src' v' fut' he
+            simp at he
+            obtain ⟨rfl, rfl, rfl⟩ := he
+            refine ⟨hz, (x.time, src, w), by simp, rfl, s.count w, ?_⟩
+            intro t' ht'
+            have : t' ∈ (P.delays w z (s.count w)).map fun d => x.time + d := by
+              apply liveTimes_subset; rw [h1]; exact ht'
+            obtain ⟨d, hd, rfl⟩ := List.mem_map.1 this
+            exact ⟨d, hd, rfl⟩
+      · intro src' v' fut' he
+        exact (reQ_ChainOK hx _ hy src' v' fut' he).mono hsub
+
+theorem InvC_init (P : SSParams) (infs : List Node) : InvC P infs (init P infs) := by
+  refine ⟨by simp [init], ?_⟩
+  rw [init_queue]
+  intro x hx src v fut he
+  split at hx
+  · simp at hx; obtain ⟨u, hu, rfl⟩ := hx
+    simp at he
+    obtain ⟨rfl, rfl, rfl⟩ := he
+    exact ⟨hu, rfl⟩
+  · simp at hx
+
+theorem InvC_run (P : SSParams) (infs : List Node) (fuel : Nat) : InvC P infs (run P infs fuel) :=
+  loop_inv (InvC P infs) (fun _ _ => InvC_step) fuel _ (InvC_init P infs)
+
 end EventSIS
